@@ -497,6 +497,10 @@ fn gen_rewrites(rng: &mut Rng, q: &Query, db: &[Table]) -> Vec<Rewrite> {
     fn collect_ons<'a>(f: &'a From, out: &mut Vec<&'a Expr>) { if let From::Join(_, l, r, on) = f { out.push(on); collect_ons(l, out); collect_ons(r, out); } }
     collect_ons(&q.from, &mut ons);
     if q.wh.as_ref().map(|e| has_andor(e)).unwrap_or(false) || ons.iter().any(|e| has_andor(e)) { out.push(Rewrite::Mirror); }
+    {
+        let has_eq = |e: &Expr| { let mut f = false; e.walk(&mut |x| if matches!(x, Expr::Cmp(CmpOp::Eq, ..)) { f = true; }); f };
+        if (q.wh.as_ref().map(|e| eq_range(e) != *e).unwrap_or(false) || ons.iter().any(|e| eq_range(e) != **e)) && (ons.iter().any(|e| has_eq(e)) || rng.chance(1, 2)) { out.push(Rewrite::EqRange); }
+    }
     if let Some(w) = &q.wh {
         if matches!(w, Expr::And(..) | Expr::Or(..)) { out.push(Rewrite::CommTop); }
         if assoc_r(w) != *w { out.push(Rewrite::AssocR); }
@@ -718,7 +722,7 @@ fn all_queries(m: &MetaCase) -> Vec<Query> {
 /// finding class of a query (rough port of q_class, coq/Model/PlanClass.v; the authoritative classification is Coq's)
 fn query_class(q: &Query, db: &[Table]) -> u32 {
     let d = dangers(q, db);
-    for (tag, k) in [("proj", 1), ("star", 2), ("expritem", 3), ("three", 9), ("push_blind", 4), ("push_right_cond", 5), ("outer_where", 6), ("right_names", 7), ("on_residual", 8)] {
+    for (tag, k) in [("proj", 1), ("star", 2), ("expritem", 3), ("three", 9), ("push_blind", 4), ("push_right_cond", 5), ("outer_where", 6), ("right_names", 7), ("on_residual", 8), ("negzero_key", 10)] {
         if d.contains(&tag) { return k; }
     }
     0
@@ -755,6 +759,19 @@ fn probe(a: &Args) {
         if let Some(o) = &only { if !sk.eq_ignore_ascii_case(o) { continue; } }
         let dg = case_dangers(&m);
         if dg.iter().any(|d| avoid.iter().any(|x| x == d)) { continue; }
+        // class-0 queries against the reference semantics
+        for q in all_queries(&m) {
+            if query_class(&q, &m.db) != 0 { continue; }
+            if let Some(sp) = eval_query(&q, &m.db) {
+                let r = sut.run(&m.db, &q.to_sql(&m.db));
+                let e = by_kind.entry(format!("{} class0-vs-spec", sk)).or_insert((0, 0));
+                e.0 += 1;
+                if !same_bag(&Res::Rows(sp.clone()), &r, &[]) {
+                    e.1 += 1;
+                    if e.1 <= 5 { println!("SPECDIFF {}\n   got  {}\n   spec {}\n   {}", q.to_sql(&m.db), show_res(&r), show_res(&Res::Rows(sp)), Case::Meta(MetaCase { q: q.clone(), rws: vec![], tlp: false, db: m.db.clone() }).to_line()); }
+                }
+            }
+        }
         let bad = check_meta(&mut sut, &m);
         let key = format!("{} [{}]", sk, dg.join(","));
         let e = by_kind.entry(key.clone()).or_insert((0, 0));
